@@ -20,7 +20,9 @@ def returned_exprs(prog, f, local_only=True, depth=2):
     out = []
     for n in walk_own(fx):
         if isinstance(n, ast.Return) and n.value is not None:
-            out.append(ast.parse(P_.full(n.value, val, depth=8), mode="eval").body)
+            from .desugar import simplify_functional
+
+            out.append(ast.fix_missing_locations(simplify_functional(ast.parse(P_.full(n.value, val, depth=8), mode="eval").body)))
     return fx, out
 
 
@@ -65,7 +67,10 @@ def max_plus_one(prog, f):
     for r in P_.outcomes(fx.body, P_.aliases(fx)):
         if r.end != "return":
             continue
-        v = ast.parse(P_.full(r.path.end_node.value, val, depth=8), mode="eval").body
+        from .desugar import simplify_functional
+
+        v = simplify_functional(ast.parse(P_.full(r.path.end_node.value, val, depth=8), mode="eval").body)
+        ast.fix_missing_locations(v)
         mx = [c for c in ast.walk(v) if isinstance(c, ast.Call) and dotted(c.func) == "max" and c.args]
         if not mx:
             k = prog.const(v, f.module)
